@@ -13,6 +13,9 @@ type konts struct {
 	brk  func(*State)
 	cont func(*State)
 	ret  func(*State, []Val)
+	// retDone: return continuation to use inside `case <-x.Done():` of a select (a listener loop marked
+	// `noexit` may still end when its context is cancelled)
+	retDone func(*State, []Val)
 }
 
 const maxPaths = 4096
@@ -275,6 +278,7 @@ func (c *Ctx) seqSort(elem Sort) Sort {
 	c.ensureSort(elem)
 	m := mangle(elem)
 	name := "Seq_" + m
+	seqElem[name] = elem
 	c.decl("sort:"+name, fmt.Sprintf("(declare-datatypes ((%s 0)) (((mkQ_%s (qlen_%s Int) (qarr_%s (Array Int %s))))))", name, m, m, m, elem))
 	return name
 }
@@ -690,6 +694,10 @@ func (c *Ctx) execSelect(st *State, x *ast.SelectStmt, k konts) {
 	for _, cl := range x.Body.List {
 		cc := cl.(*ast.CommClause)
 		s1 := st.clone()
+		kb := kb
+		if isDoneRecv(cc.Comm) && k.retDone != nil {
+			kb.ret = k.retDone
+		}
 		if cc.Comm != nil {
 			k2 := kb
 			body := cc.Body
@@ -733,5 +741,44 @@ func (c *Ctx) execGo(st *State, x *ast.GoStmt) {
 	}
 	s2 := st.clone()
 	c.evalCallMode(s2, x.Call, true)
-	// keep only obligations; discard s2's effects
+	// keep only obligations; discard s2's effects. A ghost counter records that the call was spawned.
+	name := "spawned_" + lastName(x.Call.Fun)
+	cur := "0"
+	if v, ok := st.ghost[name]; ok {
+		cur = v.T
+	}
+	st.ghost[name] = Val{T: "(+ " + cur + " 1)", S: "Int"}
+}
+
+func lastName(e ast.Expr) string {
+	switch x := unparen(e).(type) {
+	case *ast.SelectorExpr:
+		return x.Sel.Name
+	case *ast.Ident:
+		return x.Name
+	}
+	return "func"
+}
+
+// isDoneRecv: `<-x.Done()` (possibly assigned)
+func isDoneRecv(s ast.Stmt) bool {
+	var e ast.Expr
+	switch x := s.(type) {
+	case *ast.ExprStmt:
+		e = x.X
+	case *ast.AssignStmt:
+		if len(x.Rhs) == 1 {
+			e = x.Rhs[0]
+		}
+	}
+	u, ok := unparen(e).(*ast.UnaryExpr)
+	if !ok || u.Op != token.ARROW {
+		return false
+	}
+	call, ok := unparen(u.X).(*ast.CallExpr)
+	if !ok {
+		return false
+	}
+	sel, ok := unparen(call.Fun).(*ast.SelectorExpr)
+	return ok && sel.Sel.Name == "Done"
 }
